@@ -222,6 +222,15 @@ def t1_piece_square_mirror(ck):
                 consts = [variant_name(x) for x in walk(c) if x[0] in ("const", "agg") and variant_name(x) in cd]
                 if consts:
                     colour = consts[0] if tk != 0 else ("Black" if consts[0] == "White" else "White")
+            # `match perspective { White => .., Black => .. }`: a switch over the discriminant
+            if c[0] == "discr" and any(x == ("param", 3) for x in walk(c)) and isinstance(tk, int) and not isinstance(tk, bool):
+                byd = {v: k for k, v in cd.items()}
+                if tk in byd:
+                    colour = byd[tk]
+            if c[0] == "discr" and any(x == ("param", 3) for x in walk(c)) and isinstance(tk, tuple) and tk and tk[0] == "else":
+                rest = [k for k, v in cd.items() if v not in tk[1]]
+                if len(rest) == 1:
+                    colour = rest[0]
         idxs = [e[2][1] for e in p.effects if e[0] == "call" and e[1] == "weechess_core::utils::ArrayMap::<I, T>::index"]
         if colour and idxs:
             idx_by_colour.setdefault(colour, []).extend(idxs)
